@@ -32,7 +32,7 @@ class Rule:
     def _validate(self, contract: Contract, args, kwargs, **error_info) -> Error | None:
         try:
             result = contract.run(*args, **kwargs)
-        except Exception:
+        except (Exception, SystemExit):
             # cannot resolve contract dependencies or cannot find validator
             return None
         if isinstance(result, str):
